@@ -1,7 +1,7 @@
 (* One entry point for the correspondence check: a request (an S-expression naming a stage and its input) is
    decoded, run through the model, and the observable encoded back.  Used extracted (driver/) and inside Coq. *)
 From Coq Require Import List String Ascii Bool NArith.
-From Yae Require Import Base.Sexp Model.Ty Model.Unify.
+From Yae Require Import Base.Sexp Model.Ty Model.Unify Model.Lexer.
 Import ListNotations.
 Open Scope string_scope.
 
@@ -56,6 +56,22 @@ Definition run_tyinfo (args : list sexp) : sexp :=
   | _ => bad
   end.
 
+Definition dec_ops (s : sexp) : option (list (list N)) :=
+  match s with L l => mapM dNs l | _ => None end.
+
+Definition run_lex (args : list sexp) : sexp :=
+  match args with
+  | [ops; src] =>
+      match dec_ops ops, dNs src with
+      | Some o, Some s => match lex o s with
+                          | Some ts => L [A "ok"; L (map enc_tok ts)]
+                          | None => A "err"
+                          end
+      | _, _ => bad
+      end
+  | _ => bad
+  end.
+
 Definition dispatch (req : sexp) : sexp :=
   match req with
   | L (A tag :: args) =>
@@ -64,6 +80,7 @@ Definition dispatch (req : sexp) : sexp :=
       else if tag =? "apply" then run_apply args
       else if tag =? "inferfun" then run_inferfun args
       else if tag =? "tyinfo" then run_tyinfo args
+      else if tag =? "lex" then run_lex args
       else bad
   | _ => bad
   end.
